@@ -29,8 +29,8 @@ inductive Op where
   | trk (name : Nat)
   | trks
   /-- the process is killed inside `op`, immediately before its `n`-th (0-based) I/O event of kind `kind`
-  (hook H1: 0 = entry write, 2 = index tmp write, 3 = index rename, 7 = io_uring submission); `fd` = FD
-  backend.  If `op` performs no such event it completes normally. -/
+  (hook H1: 0 = entry write, 2 = index tmp write, 3 = index rename, 7 = io_uring submission, 8 = write through
+  the storage layer); `fd` = FD backend.  If `op` performs no such event it completes normally. -/
   | crashAt (kind n : Nat) (fd : Bool) (op : Op)
   deriving Repr
 
@@ -76,7 +76,15 @@ def crashBatchDisk (c : Cfg) (p : Proc) (i : Inst) (t : Topic) (batch : List Pay
 def applyIdx (m : AMap Topic Pos) (l : List (Topic × Pos)) : AMap Topic Pos := l.foldl (fun m x => m.insert x.1 x.2) m
 
 def step (c : Cfg) (p : Proc) : Op → Proc × Out
-  | .crashAt kind n fd op =>
+  | .crashAt kind0 n fd op =>
+    -- kind 8 = a write through the storage layer: the one entry write of an append, the entry writes of the
+    -- sequential batch path (the io_uring path does not go through the storage layer)
+    let kind : Nat := if kind0 = 8 then
+        (match op with
+         | .append _ _ => 0
+         | .batch _ _ => if fd then 8 else 0
+         | _ => 8)
+      else kind0
     let p0 : Proc := match p.inst with
       | some i => { p with inst := some { i with idxLog := [] } }
       | none => p
